@@ -88,8 +88,28 @@ def alignof(ty):
     return _layout(ty)[1]
 
 
+_NAMED = {}
+
+
+def register_named_types(module):
+    from .llparse import P, tokenize
+    for name, text in module.named_types.items():
+        key = name[1:].strip('"')
+        if key in _NAMED:
+            continue
+        try:
+            _NAMED[key] = P(tokenize(text), text).type()
+        except Exception:
+            pass
+
+
 def _layout(ty):
     k = ty[0]
+    if k == "named":
+        nm = ty[1][1:].strip('"')
+        if nm not in _NAMED:
+            raise Unsupported("unknown named type %s" % ty[1])
+        return _layout(_NAMED[nm])
     if k == "int":
         n = ty[1]
         sz = (n + 7) // 8
@@ -129,7 +149,14 @@ def _layout(ty):
     raise Unsupported("sizeof %r" % (ty,))
 
 
+def resolve_named(ty):
+    while ty[0] == "named":
+        ty = _NAMED[ty[1][1:].strip('"')]
+    return ty
+
+
 def struct_offsets(ty):
+    ty = resolve_named(ty)
     offs = []
     off = 0
     for e in ty[1]:
@@ -161,6 +188,7 @@ PANIC_PAT = re.compile(
 class Executor:
     def __init__(self, module, max_steps=5_000_000):
         self.m = module
+        register_named_types(module)
         self.max_steps = max_steps
         self.steps = 0
         self.mem = {}
@@ -480,6 +508,8 @@ class Executor:
         ty = bt
         sym = None
         for n, (it, iv) in enumerate(idx):
+            if n > 0:
+                ty = resolve_named(ty)
             if n == 0:
                 stride = sizeof(ty)
             elif ty[0] == "struct":
